@@ -34,7 +34,7 @@ ATTRS = {
     "Model": ["imports", "items"],
     "Def": ["name", "v", "tag"],
     "Box": ["name", "items"],
-    "Use": ["name", "refs", "one", "opt"],
+    "Use": ["name", "refs", "one", "opt", "alt"],
 }
 COMMON = ["Model", "Import", "Def", "Box", "Use", "Wrap", "Inner"]
 ABSTRACT = ["Item"]
@@ -515,7 +515,7 @@ def _check_use_kwargs(ctx, env, ent, kw, cfgcls):
         ctx.violate("C14", "references-resolved", cfgcls,
                     f"{ent.sid()}.__init__ refs = {[getattr(x, 'name', x) for x in got]}, "
                     f"expected (any order) {[getattr(x, 'name', x) for x in exp]}")
-    for attr in ("one", "opt"):
+    for attr in ("one", "opt", "alt"):
         rr = [r for r in ent.refs if r.attr == attr]
         val = kw.get(attr)
         want = _target_obj(env, rr[0].target) if rr else None
@@ -651,7 +651,7 @@ def run(ctx):
     if cfg["family"] in ("plain", "fqn"):
         nfiles = 1
     w = gen_world(t, "/sim/w2", nfiles=nfiles, qualified=cfg["family"] in ("fqnuri", "rrel", "fqn"),
-                  max_refs=12, vals=True)
+                  max_refs=12, vals=True, alt_multipart=cfg["family"] == "rrel")
     closure = w.closure()
     refs = [r for r in w.refs if r.owner.file in closure]
     mode = t.pick(["dag", "rounds", "eager", "dag"], "mode")
@@ -958,12 +958,12 @@ def match_site(ctx, w, cfg, seq, k):
                     exp.append(("INT", s_, a))
                 elif role == "tag" and "Tag" in procs:
                     exp.append(("Tag", s_, a))
-                elif role == "ref":
+                elif role in ("ref", "refc"):
                     parts = list(_re.finditer(r"\w+", s_))
                     if "ID" in procs:
                         for m in parts:
                             exp.append(("ID", m.group(0), a + m.start()))
-                    if "QN" in procs:
+                    if "QN" in procs and role == "ref":  # no processor is registered for the '::' rule QNC
                         exp.append(("QN", ".".join(m.group(0) for m in parts), a))
             if [(r, v) for (r, v, a) in exp] != pending:
                 ctx.probe("match-map-mismatch")
